@@ -19,6 +19,7 @@ MODULES = [
     "contracts.c_loops",
     "contracts.c_wrappers",
     "contracts.c_stdlib",
+    "contracts.c_lemmas",
 ]
 EXPECTED_MIN_OBLIGATIONS = {}
 PROPERTY_ASSUMPTIONS = {}
